@@ -2,7 +2,7 @@
    shell (slinky-cli/src/main.rs) over an abstract sequence of file writes. *)
 From Slinky Require Import Model.Types Model.Generated Model.Parse Model.Runtime Model.Style
   Model.Script Model.Writer.
-Open Scope string_scope.
+Local Open Scope string_scope.
 
 Definition script_text (w : writer_out) : string := lines_to_text (render (wo_script w)).
 
@@ -14,9 +14,9 @@ Definition partial_script_text (p : partial_out) : string :=
 Definition deps_text (rt : runtime) (w : writer_out) (target : string) : string :=
   (if rt_emit_version_comment rt then "# " ++ version_comment_text ++ nl ++ nl else "") ++
   display target ++ ":" ++
-  concat_all (map (fun p => " \" ++ nl ++ "    " ++ display p) (wo_paths w)) ++
+  concat_all (map (fun p => " \" ++ nl ++ "    " ++ join "/" p) (wo_paths w)) ++
   nl ++ nl ++
-  concat_all (map (fun p => display p ++ ":" ++ nl) (wo_paths w)).
+  concat_all (map (fun p => join "/" p ++ ":" ++ nl) (wo_paths w)).
 
 (* get_linker_symbols: every write_linker_symbol inserts its symbol into an IndexSet *)
 Definition add_sym (s : string) (l : list string) : list string :=
